@@ -121,27 +121,23 @@ def own_jouguet_velocity(chk: Check, rule: str) -> None:
     S = chk.src
     ci = S.cls("hydrodynamics:Hydrodynamics")
     own = 0
+    seen = set()
     for mname, fi in ci.methods.items():
-        scopes = [fi] + [f for f in S.modules[fi.module].funcs.values() if f.parent is fi or (f.parent is not None and f.parent.parent is fi)]
-        for sc in scopes:
-            g = CFG(sc.node)
-            cx = Ctx(S, sc)
-            for t0 in g.nodes:
-                if g.kind.get(t0) != "test":
-                    continue
-                t = cx.resolve(t0)          # look through temporaries (`top = self.vJ - eps; if f(top) < ...`)
-                for x in ast.walk(t):
-                    if not hasattr(x, "lineno"):
-                        x.lineno = getattr(t0, "lineno", 0)
-                cmps = [c for c in ast.walk(t) if isinstance(c, ast.Compare)]
-                foreign = [c for c in cmps if any(isinstance(x, ast.Attribute) and x.attr == "vJ" and not (isinstance(x.value, ast.Name) and x.value.id == "self")
-                                                 for y in [c.left] + list(c.comparators) for x in ast.walk(y))]
-                mine = [c for c in cmps if any(eqx(x, "self.vJ") for y in [c.left] + list(c.comparators) for x in ast.walk(y))]
-                own += len(mine)
-                for c in foreign:
-                    chk.ob(rule, sc.where(c), f"{sc.qual}: the branch `{n(c)[:80]}` is decided with the model's own Jouguet velocity self.vJ", False,
-                           "compares with another model's vJ", key=f"own-vJ|{sc.qual}|{n(c)[:60]}")
-    chk.ob(rule, "src/WallGo/hydrodynamics.py", f"all {own} branch decisions of Hydrodynamics that involve a Jouguet velocity use self.vJ", own >= 3,
+        cx = Ctx(S, fi)
+        for c0 in (y for y in ast.walk(fi.node) if isinstance(y, ast.Compare)):      # tests of if / while / conditional expressions / asserts alike
+            if id(c0) in seen:
+                continue
+            seen.add(id(c0))
+            c = cx.resolve(c0)          # look through temporaries (`top = self.vJ - eps; if f(top) < ...`)
+            sides = [c.left] + list(c.comparators)
+            foreign = any(isinstance(x, ast.Attribute) and x.attr == "vJ" and not (isinstance(x.value, ast.Name) and x.value.id == "self")
+                          for y in sides for x in ast.walk(y))
+            mine = any(eqx(x, "self.vJ") for y in sides for x in ast.walk(y))
+            own += 1 if mine else 0
+            if foreign:
+                chk.ob(rule, fi.where(c0), f"{fi.qual}: the branch `{n(c0)[:80]}` is decided with the model's own Jouguet velocity self.vJ", False,
+                       "compares with another model's vJ", key=f"own-vJ|{fi.qual}|{n(c0)[:60]}")
+    chk.ob(rule, "src/WallGo/hydrodynamics.py", f"all {own} branch decisions of Hydrodynamics that involve a Jouguet velocity use self.vJ", own >= 2,
            f"{own} comparisons with self.vJ", key="own-vJ|all")
 
 
